@@ -154,13 +154,31 @@ def _build(case):
             d = tempfile.mkdtemp(prefix='c16_thermdat_')
             path = os.path.join(d, 'thermdat')
             try:
+                # a DIFFERENT thermdat is written to the same path first and read through the
+                # library (same names; other NASA-7 coefficients, and for every other case one
+                # more atom in the first species), then the file is regenerated with the
+                # case's real species and read twice
+                decoy = []
+                for j, i in enumerate(form['mlist']):
+                    d_ = dict(case['species'][i])
+                    for key in ('a_low', 'a_high'):
+                        d_[key] = list(d_[key])
+                        d_[key][5] += 12.0 * case['points'][0][0] * (1 if j % 2 else -1)
+                    if j == 0 and len(case['cid']) % 2:
+                        d_['formula'] = dict(d_['formula'])
+                        e0 = sorted(d_['formula'])[0]
+                        d_['formula'][e0] = d_['formula'][e0] + 1
+                    decoy.append(d_)
+                write_thermdat(L.make_species(decoy), filename=path)
+                read_thermdat(path, 'dict')
+                Equilibrium.from_thermdat(path, net)
                 write_thermdat([species[i] for i in form['mlist']], filename=path)
-                back = read_thermdat(path, 'dict')
+                Equilibrium.from_thermdat(path, net)
             except Exception as ex:
                 shutil.rmtree(d, ignore_errors=True)
                 raise core.MachineryError('could not prepare the thermdat file of case %s: %r' % (case['cid'], ex))
-            return ((lambda: Equilibrium.from_thermdat(path, net)),
-                    (lambda T: [float(back[nm].get_GoRT(T=T)) for nm in names]),
+            # G/RT from the species that were written (the file carries 9 significant digits)
+            return ((lambda: Equilibrium.from_thermdat(path, net)), gfun,
                     (lambda: shutil.rmtree(d, ignore_errors=True)))
         if form['model'] == 'dict':
             model = {names[i]: species[i] for i in range(len(names))}
@@ -585,6 +603,9 @@ def run(ctx):
                     ctx.count('objects_called_at_several_temperatures')
             if i.get('phase') == 'form':
                 ctx.count('objects_model_' + i['form'])
+                if i['form'] == 'thermdat_w' and not i['raised']:
+                    ctx.count('objects_from_thermdat_after_the_file_at_that_path_was_rewritten')
+                    ctx.count('objects_from_thermdat_same_path_read_again_unchanged')
                 if i['listdiffers']:
                     ctx.count('objects_model_list_in_other_order_than_network')
         for i in solved:
@@ -650,6 +671,7 @@ def run(ctx):
     if ctx.replay_case is None:
         missing = [k for k in REQUIRED_INPUT_CLASSES if not ctx.coverage.get('in_' + k)]
         missing += [k for k in ('objects_model_list+dup', 'objects_model_list+extra', 'objects_model_thermdat_w',
+                                'objects_from_thermdat_after_the_file_at_that_path_was_rewritten',
                                 'objects_called_at_several_temperatures', 'objects_called_again_after_other_calls')
                     if not ctx.coverage.get(k)]
         if missing:
